@@ -376,7 +376,7 @@ class Driver:
             caps |= cl.CLIENT_QUERY_ATTRIBUTES
         self.qa = bool((self.server_caps or 0) & caps & cl.CLIENT_QUERY_ATTRIBUTES)
         self.caps = caps
-        p = cl.handshake_response(user=b"user", caps=caps, plugin=b"c0", charset=8)
+        p = cl.handshake_response(user=b"user", caps=caps, plugin=b"c0", charset=self.rng.choice([8, 45, 33, 45]))
         if not ok:
             p = p[:20]
         self.reader.feed_data(cl.frame(p, 1))
@@ -437,10 +437,27 @@ class Driver:
             cd = len(packets.make_column_definition_41(server_charset=CharacterSet.utf8mb4, name="?"))
             term = f"CPrepare {n} {coq_sizes(12, [cd] * n, SZ_EOF, 0)}"
         elif kind == "longdata":
-            data = bytes([cl.COM_STMT_SEND_LONG_DATA]) + struct.pack("<IH", cmd[1], 0) + b"abc"
+            # chunks may be cut anywhere - also inside a multi-byte character; the value only has to decode as a whole
+            half = getattr(self, "ld_half", None)
+            if half is None:
+                half = self.ld_half = set()
+            if cmd[1] not in self.stmts:
+                chunk = b"abc"                 # unknown statement: the server ignores the packet
+            elif cmd[1] in half:
+                chunk = b"\xa9!"
+                half.discard(cmd[1])
+            elif self.rng.random() < 0.5:
+                chunk = b"caf\xc3"
+                half.add(cmd[1])
+            else:
+                chunk = b"abc"
+            data = bytes([cl.COM_STMT_SEND_LONG_DATA]) + struct.pack("<IH", cmd[1], 0) + chunk
             term = f"CLongData {cmd[1]}"
         elif kind == "execute":
             sid, cursor = cmd[1], cmd[2]
+            if sid in getattr(self, "ld_half", ()):
+                self.payload(("longdata", sid))      # complete the character before the value is used
+            getattr(self, "ld_half", set()).discard(sid)
             n = self.stmts.get(sid, {}).get("nparams", 0)
             # with CLIENT_QUERY_ATTRIBUTES the flag byte may also carry PARAMETER_COUNT_AVAILABLE (0x08): 0x09 is a cursor
             pca = self.qa and self.rng.random() < 0.5
@@ -457,9 +474,11 @@ class Driver:
             data = bytes([cl.COM_STMT_FETCH]) + struct.pack("<II", sid, n)
             term = f"CFetch {sid} {n} {SZ_EOF if not self.depeof else SZ_OK}"
         elif kind == "reset":
+            getattr(self, "ld_half", set()).discard(cmd[1])
             data = bytes([cl.COM_STMT_RESET]) + struct.pack("<I", cmd[1])
             term = f"CReset {cmd[1]}"
         elif kind == "close":
+            getattr(self, "ld_half", set()).discard(cmd[1])
             data = bytes([cl.COM_STMT_CLOSE]) + struct.pack("<I", cmd[1])
             term = f"CClose {cmd[1]}"
         elif kind == "changeuser":
